@@ -24,7 +24,7 @@ RULE = ("interpolation: label vectors over {0,1,2,3} (isolated, clusters of adja
 ASSUMPTIONS = ["a bad channel's admissible neighbours = non-bad channels whose distance-decay weight exp(-(d/20um)^1.3) is >= 0.005 (d <= 72.1 um)",
                "detection is judged on generated backgrounds only; the feature margins measured on the run are written to the evidence",
                "mode over batches is asserted only without ties (7/3 splits)"]
-REQUIRED = {"interp_cases": 40, "nonfinite_bad_rows": 20, "bad_rows_checked": 100, "untouched_rows_checked": 40, "detection_cases": 20, "file_mode_cases": 2, "spied_batches": 20, "plurality_channels": 1}
+REQUIRED = {"interp_cases": 40, "nonfinite_bad_rows": 20, "bad_rows_checked": 100, "untouched_rows_checked": 40, "detection_cases": 20, "file_mode_cases": 2, "spied_batches": 20, "plurality_channels": 1, "file_mode_cbin": 1}
 CASE_TIMEOUT = 200.0
 KINDS = ["3B2", "NP2.1", "NP2.4", "NPultra"]
 
@@ -34,7 +34,7 @@ def gen_cases(seed, tier):
     cases = [{"cls": "interp", "seed": seed * 1000 + i, "n": 6, "_w": 1} for i in range(n)]
     cases += [{"cls": "detect", "seed": seed * 1000 + i, "n": 2, "_w": 4} for i in range(n)]
     cases += [{"cls": "detect-edge", "seed": seed * 1000 + i, "first": i == 0, "end": ["bottom", "top"][i % 2], "_w": 3} for i in range(max(7, n // 4))]
-    cases += [{"cls": "file", "seed": seed * 1000 + i, "_w": 8} for i in range(max(2, n // 6))]
+    cases += [{"cls": "file", "seed": seed * 1000 + i, "_w": 8} for i in range(max(4, n // 6))]
     return cases
 
 
@@ -275,7 +275,7 @@ def run_case(case):
             raw[s0:s1, :n] = np.clip(np.round(seg.T / s2v[None, :]), -32768, 32767).astype(np.int16)
         rec.raw = raw
         b = G.write(rec, d)
-        use_c = bool(rng.integers(0, 2))
+        use_c = bool(case.get("_orig_i", case["_i"]) % 2)          # compressed and flat recordings alternate (both in every run)
         label = f"file mode: ch {often} {kind_often} in 7/10 batches, ch {seldom} {kind_seldom} in 3/10 batches, {'cbin' if use_c else 'bin'}"
         import spikeglx
         try:
@@ -292,6 +292,7 @@ def run_case(case):
             finally:
                 V.detect_bad_channels = spy.fn
             res.count("file_mode_cases")
+            res.count("file_mode_cbin", int(use_c))
             per = np.array([c[2][0] for c in spy.calls if not c[3]])
             res.count("spied_batches", len(per))
             res.check(per.shape == (nb, n), "file:batches", f"{label}: {per.shape[0]} batches analysed with {per.shape[1] if per.ndim == 2 else '?'} channels, expected ({nb}, {n})")
